@@ -5,7 +5,7 @@ NOTES = ("Runtime monitoring only: every check executes the real code of /repo u
          "over what was observed. VERIF_SEED changes every random choice; VERIF_TIER overrides the tier. Exit 2 = build/harness failure "
          "(never a VIOLATION line). Known findings: /verif/known_findings.json. See DESIGN.md.")
 ENGINES = [
-    {"name": "ve2e", "path": "harness/e2e", "serves_properties": ["C01", "C10", "C14", "C17", "C18", "C19"],
+    {"name": "ve2e", "path": "harness/e2e", "serves_properties": ["C01", "C10", "C14", "C16", "C17", "C18", "C19"],
      "kind_free_text": "Rust harness over the rusty-penguin library: real client_main_inner / run_listener / tls_connect on loopback sockets, raw HTTP client, scripted gate, scripted targets; quiescence witness from /proc"},
     {"name": "vmux", "path": "harness/mux", "serves_properties": ["C01", "C02", "C03", "C04", "C05", "C06", "C07", "C08", "C09", "C10", "C11", "C12", "C13", "C15", "C16", "C18", "C19", "C20"],
      "kind_free_text": "Rust harness over penguin-mux/cow-bytes/penguin-socks: PURE differential monitors, SIM (tokio current-thread, paused clock, in-memory WebSocket with wire tap and fault plan), THR, MICRO, Miri"},
@@ -171,7 +171,7 @@ _R9 = {
     "C13": "Round 9: local sides with several hundred KiB ready in one poll; the far application also performs zero-length writes.",
     "C14": "Round 9: a server whose pre-shared key is the empty string; wrong keys made of arbitrary octets (multi-byte characters at every offset, lone high bytes) - a refusal must stay indistinguishable and must be answered at all.",
     "C15": "Round 9: a request abandoned by its caller before the answer, followed by a request to which the generator offers the abandoned id; requests crossing with the same id from both sides; a request under an id the responder still uses for a stream of its own.",
-    "C16": "Round 9: a live peer behind a slow link while the application keeps the outbound queue busy (it must see about one Ping per interval and is never timed out); a peer that dies behind a sink that is blocked from then on (nothing can be sent, flushed or closed): the time-out bounds and the release of pending operations still apply.",
+    "C16": "Round 9: a live peer behind a slow link while the application keeps the outbound queue busy (it must see about one Ping per interval and is never timed out); a peer that dies behind a sink that is blocked from then on (nothing can be sent, flushed or closed): the time-out bounds and the release of pending operations still apply; job client: the real client with I and T in its arguments, its Ping cadence, its reconnect after a peer went silent and the disabled cases observed at a gate that timestamps relayed Pings and Pongs.",
     "C17": "Round 9: bytes that are no TLS handshake followed by a plaintext request on the same socket must not be served; certificate files holding leaf + intermediate CA are verified against the root only (server's and client's certificate); the configuration matrix is executed again for P-384, Ed25519, P-521 and RSA-2048 keys (whatever the provider can generate).",
     "C18": "Round 9: the front job also puts a server of the harness's own (real Multiplexor) behind the client and compares host octets and port of every stream request with what the SOCKS request named (names that are no UTF-8 included).",
     "C07": "Round 9: a stream request dropped while its Connect is unanswered and then acknowledged by the peer (the peer must learn that nobody holds the stream); Connects with id 0 / an id in use while the accept queue is exactly full (also run by C10 and C15).",
